@@ -332,7 +332,8 @@ pub fn check_store2(rep: &mut Report, script: &[String], rng: &mut Rng) {
         let mut inner = match gen_inner(rng, &v, &outer, "y") { Some(i) => i, None => continue };
         // the property does not say what OPTIONAL means for a level that has a non-optional level under it: below an
         // OPTIONAL level every level is OPTIONAL
-        if rng.chance(35) { if let Some(mut third) = gen_inner(rng, &v, &inner, "z") { third.optional = inner.optional || rng.chance(40); inner.sub = Some(Box::new(third)); } }
+        // the third level refers to the variable of the second level or (one time in three) to that of the top-level query
+        if rng.chance(35) { let to_top = rng.chance(33); if let Some(mut third) = gen_inner(rng, &v, if to_top { &outer } else { &inner }, "z") { third.optional = inner.optional || rng.chance(40); inner.sub = Some(Box::new(third)); } }
         outer.sub = Some(Box::new(inner));
         let text = outer.text();
         let sig = { let mut s = vec![]; let mut cur = Some(&outer); while let Some(c) = cur { s.push(format!("{}{}", if c.optional { "opt-" } else { "" }, c.rtype)); cur = c.sub.as_deref(); } s.join(">") };
@@ -353,13 +354,19 @@ pub fn check_store2(rep: &mut Report, script: &[String], rng: &mut Rng) {
                 }
                 if !b.is_empty() { rep.count("query2:subquery:nonempty"); }
                 // the shape of the iteration, through the model of the QueryIter state machine
-                if tree.len() < 3000 && !tree.is_empty() {
+                // (a third level that refers to the top-level variable while some level is OPTIONAL is left out: once the
+                // known OPTIONAL defect has left `querypath` too long, that level is initialised straight on top of the
+                // first one, an iterator the forest does not contain)
+                let third_refs_top = outer.sub.as_ref().and_then(|s2| s2.sub.as_ref()).map(|t| t.cons.iter().any(|c| c.text().contains("?x"))).unwrap_or(false);
+                if tree.len() < 3000 && !tree.is_empty() && !(third_refs_top && opt_flags(&outer).contains('1')) {
                     let line = format!("sq {} {}", opt_flags(&outer), tree);
                     rep.model_case_ctx(ctx(&text), vec![line], vec![a.iter().map(|r| r.join("+")).collect::<Vec<_>>().join(" ")], "subquery");
                 }
             }
             (Err(e), _) | (_, Err(e)) if e.starts_with("PANIC") => rep.fail("panic", &format!("C08/query-panics/subquery/{}/{}", sig, linkkw), ctx(&text), "rows or an error", e),
             (Err(_), Err(_)) => rep.count(&format!("query2:subquery-refused:{}", linkkw)),
+            // the whole query never reaches the level that is refused because the known OPTIONAL defect ended it early
+            (Ok(a), Err(_)) if a.last().map(|r| r.len() < outer.depth()).unwrap_or(false) && opt_flags(&outer).contains('1') => rep.count("query2:subquery:refusing-level-not-reached-after-empty-OPTIONAL"),
             (Ok(a), Err(e)) => if !a.is_empty() { rep.fail("oracle", &format!("C08/subquery-acceptance/{}/{}", sig, linkkw), ctx(&text), &format!("refused level by level: {}", e), &format!("query: {} rows", a.len())) },
             (Err(e), Ok(b)) if b.iter().any(|r| r.len() < outer.depth()) && (e.contains("VariableNotFound") || e.contains("not found")) => rep.fail("oracle", "C08/subquery-not-nested-iteration/rows-after-an-empty-OPTIONAL-are-lost", ctx(&text), &format!("nested iteration: {:?}", b), &format!("query: {}", e)),
             (Err(e), Ok(b)) => if !b.is_empty() { rep.fail("oracle", &format!("C08/subquery-acceptance/{}/{}", sig, linkkw), ctx(&text), &format!("nested iteration: {} rows", b.len()), &format!("refused: {}", e)) },
